@@ -20,6 +20,8 @@ type Profile struct {
 	Tweak func(r *PRNG, c *Config)
 	// Prefix returns population steps executed before chaos.
 	Prefix func(r *PRNG, c *Config) []Step
+	// Tail returns steps executed after chaos (they may depend on the state reached).
+	Tail func(r *PRNG, s *Sim) []Step
 }
 
 var slotChoices = []string{"[]", "[0]", "[1]", "[0,2]", "[1,2]", "[3]", "[5]", "[0,1,2]", "[2,4]", "[7,9]", "[1,1,2]"}
@@ -200,7 +202,7 @@ func (s *Sim) Gen(r *PRNG) Step {
 			add(k, parked)
 		case "deliver", "deliverall":
 			add(k, lag)
-		case "kube", "podrm", "podlabel", "podorphan":
+		case "kube", "podrm", "podlabel", "podorphan", "podown":
 			add(k, pods)
 		case "prel":
 			add(k, procParked)
@@ -312,6 +314,10 @@ func (s *Sim) Gen(r *PRNG) Step {
 		st.A, st.B = r.Intn(nsets), r.Intn(3)
 	case "podrm", "podlabel", "podorphan":
 		st.A = r.Intn(16)
+	case "podown":
+		// B: owner class in the low two bits, bit 2 = reference written with another
+		// served version of the API group
+		st.A, st.B = r.Intn(16), r.Intn(4)|(r.Intn(4)/3)<<2
 	case "mkpod":
 		st.A, st.B = r.Intn(nsets), r.Intn(8)
 		st.C = []int{ownThis, ownNone, ownNone, ownStaleUID, ownOtherKind}[r.Intn(5)] | r.Intn(6)<<2 | r.Intn(2)*r.Intn(2)<<5 | (r.Intn(8)/7)<<6 | []int{0, 0, 2, 3}[r.Intn(4)]<<7
@@ -327,6 +333,17 @@ func (s *Sim) Gen(r *PRNG) Step {
 		if s.Cfg.Profile == "flags" && r.Chance(0.4) {
 			// an owned pod whose labels stopped matching
 			st.C = ownThis | 3<<2 | 1<<6
+		}
+		if (s.Cfg.Profile == "rolling" || s.Cfg.Profile == "history") && r.Chance(0.12) {
+			// a pod of the set whose ordinal does not fit an int32: claimed and counted,
+			// never managed; it stays at whatever revision it was made with
+			st.C = []int{ownThis, ownNone}[r.Intn(2)] | 3<<2
+			st.S = sprintf("%s-4294967296", s.Cfg.Sets[st.A].Name)
+			st.D = r.Intn(4)
+		}
+		if (s.Cfg.Profile == "events" || s.Cfg.Profile == "ownership") && r.Chance(0.15) {
+			// controller reference written through another served version of the group
+			st.C = st.C&^3 | ownThis | 1<<10
 		}
 	case "mkrev":
 		st.A, st.B, st.C, st.D = r.Intn(nsets), r.Intn(4), r.Intn(16), r.Intn(6)
